@@ -65,6 +65,9 @@ type Op struct {
 	Export bool   `json:"export"`
 	Bad    string `json:"bad"`  // for op=bad: which malformed input
 	Kind   string `json:"kind"` // for op=bad: provide | decorate | invoke
+	// for op=rawprovide | rawdecorate | rawinvoke
+	Raw  *RawValue `json:"raw"`
+	Opts *RawOpts  `json:"opts"`
 }
 
 type Config struct {
